@@ -49,6 +49,7 @@ Definition dispatch (cmd : string) (arg : sexp) : sexp :=
   else if String.eqb cmd "c18.literal_at" then Consts.run_literal_at arg
   else if String.eqb cmd "c18.bank" then Consts.run_bank arg
   else if String.eqb cmd "c18.attribute" then Consts.run_attribute arg
+  else if String.eqb cmd "c18.user_call" then Consts.run_user_call arg
   else if String.eqb cmd "c18.book" then Consts.run_book arg
   else if String.eqb cmd "c18.float_grammar" then Consts.run_float_grammar arg
   else if String.eqb cmd "c01.frag" then FragTranslate.run_frag arg
